@@ -334,13 +334,26 @@ func c13EmptyValues(c *core.Ctx) {
 	if err != nil {
 		return
 	}
-	for _, q := range []string{"qs=", "qi=", "qs=&qi=", "qa=", "qs=&zz=1", "qs", "qs=&qs="} {
+	// "h:" an empty-valued header field, "c:" an empty-valued cookie (next to another cookie), otherwise a query string
+	for _, q := range []string{"qs=", "qi=", "qs=&qi=", "qa=", "qs=&zz=1", "qs", "qs=&qs=", "h:X-D", "h:X-DA", "c:ck", "c:ck+other"} {
 		for _, multi := range []bool{false, true} {
-			desc := fmt.Sprintf("defaulted query parameter sent empty: ?%s MultiError=%v", q, multi)
+			desc := fmt.Sprintf("defaulted parameter sent empty: %s MultiError=%v", q, multi)
 			c.Begin(desc)
-			req, _ := http.NewRequest("POST", "http://h.t/d?"+q, bytes.NewReader([]byte(`{"a":"x"}`)))
+			query := q
+			if strings.HasPrefix(q, "h:") || strings.HasPrefix(q, "c:") {
+				query = "zz=1"
+			}
+			req, _ := http.NewRequest("POST", "http://h.t/d?"+query, bytes.NewReader([]byte(`{"a":"x"}`)))
 			req.Header.Set("Content-Type", "application/json")
 			req.Header.Set("X-N", "n")
+			switch {
+			case strings.HasPrefix(q, "h:"):
+				req.Header[q[2:]] = []string{""}
+			case q == "c:ck":
+				req.Header.Set("Cookie", "ck=")
+			case q == "c:ck+other":
+				req.Header.Set("Cookie", "other=1; ck=")
+			}
 			o := openapi3filter.Options{MultiError: multi}
 			var snaps []string
 			var verrs []error
@@ -358,7 +371,7 @@ func c13EmptyValues(c *core.Ctx) {
 					break
 				}
 				verrs = append(verrs, verr)
-				snaps = append(snaps, req.URL.RawQuery+" | X-D="+strings.Join(req.Header.Values("X-D"), ",")+" | Cookie="+req.Header.Get("Cookie"))
+				snaps = append(snaps, req.URL.RawQuery+" | X-D="+strings.Join(req.Header.Values("X-D"), ",")+" | X-DA="+strings.Join(req.Header.Values("X-DA"), ",")+" | Cookie="+strings.Join(req.Header.Values("Cookie"), " & "))
 			}
 			if crashed || len(snaps) < 3 {
 				continue
